@@ -99,8 +99,8 @@ type c08Obs struct {
 }
 
 const (
-	c08OpTimeout    = 3 * time.Second
-	c08ChildTimeout = 40 * time.Second
+	c08OpTimeout    = 8 * time.Second
+	c08ChildTimeout = 90 * time.Second
 )
 
 // ---------------------------------------------------------------------------------------------
@@ -362,12 +362,20 @@ func (ch *c08Child) procNetListen() []uint64 {
 }
 
 func c08Get(addr string, hdr map[string]string) (int, string) {
-	conn, err := net.DialTimeout("tcp", addr, 1500*time.Millisecond)
+	st, mark := c08GetOnce(addr, hdr)
+	if st == 0 {
+		st, mark = c08GetOnce(addr, hdr) // a starved machine is not a dead site: ask twice
+	}
+	return st, mark
+}
+
+func c08GetOnce(addr string, hdr map[string]string) (int, string) {
+	conn, err := net.DialTimeout("tcp", addr, 3*time.Second)
 	if err != nil {
 		return 0, ""
 	}
 	defer conn.Close()
-	conn.SetDeadline(time.Now().Add(2500 * time.Millisecond))
+	conn.SetDeadline(time.Now().Add(5 * time.Second))
 	var sb bytes.Buffer
 	fmt.Fprintf(&sb, "GET / HTTP/1.1\r\nHost: %s\r\n", addr)
 	for k, v := range hdr {
@@ -586,7 +594,7 @@ func (ch *c08Child) attempt(op *c08Op) (int, string) {
 			sent := time.Now()
 			for {
 				s := ch.logbuf.From(mark)
-				if !strings.Contains(s, "SIGUSR1: Reloading") && time.Since(sent) > 300*time.Millisecond {
+				if !strings.Contains(s, "SIGUSR1: Reloading") && time.Since(sent) > 1200*time.Millisecond {
 					// the handler goroutine had not installed signal.Notify yet: the signal was lost
 					syscall.Kill(os.Getpid(), syscall.SIGUSR1)
 					sent = time.Now()
@@ -733,6 +741,7 @@ func c08RunChild(in *c08In) (obs []c08Obs, crashed string) {
 	ctx, cancel := context.WithTimeout(context.Background(), c08ChildTimeout)
 	defer cancel()
 	cmd := exec.CommandContext(ctx, os.Args[0], "c08child", dir)
+	cmd.Env = append(os.Environ(), "GOMAXPROCS=2")
 	cmd.Stdin = bytes.NewReader(data)
 	var errb bytes.Buffer
 	cmd.Stderr = &errb
@@ -827,7 +836,7 @@ func c08ObsTerm(o *c08Obs) string {
 	for _, s := range o.Auth {
 		auth = append(auth, c08IntsTerm(s))
 	}
-	return cApp("Build_obs", cN(uint64(o.Res)), cBool(o.Ms >= 2000), cN(uint64(o.NInst)), c08IntsTerm(o.Hooks),
+	return cApp("Build_obs", cN(uint64(o.Res)), cBool(o.Ms >= 5000), cN(uint64(o.NInst)), c08IntsTerm(o.Hooks),
 		cNList(o.Socks), cN(uint64(o.Fds)), cList(sites), cList(auth), cN(uint64(o.Roll)))
 }
 
@@ -1019,7 +1028,7 @@ func c08Label(in *c08In, full, ref []c08Obs) string {
 		if o.Res == 3 || o.Res == 2 {
 			return c08ErrClass(o) + ":" + mode + ":" + stage
 		}
-		if o.Ms >= 2000 {
+		if o.Ms >= 5000 {
 			return "slow:" + mode + ":" + stage
 		}
 		if o.Res != 0 {
@@ -1188,7 +1197,7 @@ var (
 func c08RunBatch() {
 	var mu sync.Mutex
 	var wg sync.WaitGroup
-	sem := make(chan struct{}, 10)
+	sem := make(chan struct{}, 8)
 	for _, in := range c08Batch {
 		in := in
 		wg.Add(1)
